@@ -33,6 +33,7 @@ struct Gate {
   long payload = 0;
   int mode = 1;     // 0 completes inline in start(), 1 waits to be opened
   int on_stop = 1;  // 0 ignores stop, 1 completes with done from the stop callback
+  bool no_open = false;  // never opened by an opener thread: only a stop request can complete it
   const char* oracle = "c01";
   // history
   void* op = nullptr;
@@ -162,7 +163,7 @@ struct gate_opener {
     auto* q = (gate_opener*)p;
     q->pick = nullptr;
     for (int i = 0; i < q->n; ++i)
-      if (q->gates[i].mode == 1 && q->gates[i].armed && !q->gates[i].claimed) { q->pick = &q->gates[i]; return 1; }
+      if (q->gates[i].mode == 1 && q->gates[i].armed && !q->gates[i].claimed && !q->gates[i].no_open) { q->pick = &q->gates[i]; return 1; }
     return *q->finished ? 1 : 0;
   }
   void run() {
